@@ -167,10 +167,11 @@ def gen_plan(wl, fr, idx):
             ops.append({'op': 'recompute', 'r': wl.choice((0.05, 0.1, 0.2))})
             ops.append({'op': 'recompute', 'r': wl.choice((None, 0.1, 0.3))})
             ops.append({'op': 'fit', 'sig': wl.randrange(nsig)})
-        elif scen < 0.53:
+        elif scen < 0.53 or 0.68 <= scen < 0.74:
             # fit -> in-place edit inside find_extrema_kwargs -> fit of the same signal
             ops.append({'op': 'fit', 'sig': 0})
             op = wl.choice(({'op': 'edit', 'target': 'fek_nested_set', 'key': 'n_cycles', 'value': wl.choice((4, 5))},
+                            {'op': 'edit', 'target': 'fek_nested_set', 'key': 'n_cycles', 'value': wl.choice((1, 2, 6, 7))},
                             {'op': 'edit', 'target': 'fek_set', 'key': 'boundary', 'value': wl.choice((3, 8))}))
             ops.append(op)
             _shadow_apply(cur, op)
